@@ -89,6 +89,9 @@ use crate::{
 /// ```
 pub struct PtpInstance<F, S = RefCell<PtpInstanceState>> {
     state: S,
+    /// Time properties of the local clock, as given at construction. They
+    /// become the timePropertiesDS whenever this instance is the grandmaster.
+    local_time_properties_ds: TimePropertiesDS,
     log_bmca_interval: AtomicI8,
     _filter: PhantomData<F>,
 }
@@ -108,6 +111,7 @@ impl PtpInstanceState {
         &mut self,
         ports: &mut [&mut Port<'_, InBmca, A, R, C, F, S>],
         bmca_interval: Duration,
+        local_time_properties_ds: &TimePropertiesDS,
     ) {
         debug_assert_eq!(self.default_ds.number_ports as usize, ports.len());
 
@@ -139,6 +143,7 @@ impl PtpInstanceState {
                     recommended_state,
                     &mut self.path_trace_ds,
                     &mut self.time_properties_ds,
+                    local_time_properties_ds,
                     &mut self.current_ds,
                     &mut self.parent_ds,
                     &self.default_ds,
@@ -167,6 +172,7 @@ impl<F, S: PtpInstanceStateMutex> PtpInstance<F, S> {
                 path_trace_ds: PathTraceDS::new(config.path_trace),
                 time_properties_ds,
             }),
+            local_time_properties_ds: time_properties_ds,
             log_bmca_interval: AtomicI8::new(i8::MAX),
             _filter: PhantomData,
         }
@@ -249,6 +255,7 @@ impl<F: Filter, S: PtpInstanceStateMutex> PtpInstance<F, S> {
                 Duration::from_seconds(
                     2f64.powi(self.log_bmca_interval.load(Ordering::Relaxed) as i32),
                 ),
+                &self.local_time_properties_ds,
             );
         });
     }
